@@ -26,5 +26,6 @@ def run(prog, chk):
     C.iterator_param_alias(prog, chk, "C02.g", H)
     C.wrappers(prog, chk, "C02.w", H)
     C.lockstep_equality(prog, chk, "C02.i", ("HashMap", "HashSet"))
+    C.erase_then_step(prog, chk, "C02.j", [f for cls in H for fs in C.class_insts(prog, cls).values() for f in fs])
     # assignment (listed in the statement): a = a must not empty the table before reading it
     C.self_assign(prog, chk, "C02.h", ("HashMap", "HashSet"))
